@@ -251,7 +251,8 @@ static void run_reverse(int idx, int rc_mode, int edns)
 
 /* F_SEARCH */
 static const char *doms[] = { "alpha.example", "beta.test", "c" , ".dotted.example", "five.levels.deep.zone.example" };
-static const char *snames[] = { "host", "host.sub", "a.b.c", "x.y.z.w", "UPPER", "h-1.d_2", "a.b.c.d.e", "xn--bcher-kva" };
+static const char *snames[] = { "host", "host.sub", "a.b.c", "x.y.z.w", "UPPER", "h-1.d_2", "a.b.c.d.e", "xn--bcher-kva",
+	"host.", "a.b." };   /* trailing dot: the expansion must not insert a second dot (search_make_new's need_to_append_dot == 0 branch) */
 static void run_search(int ndom, int via_conf, int ndots, int name_i, int variant, int tcp)
 {
 	/* variant: 0 all NXDOMAIN, 1 NO_SEARCH flag, 2 second query answered positively, 3 all NODATA (NOERROR, no answer) */
@@ -277,12 +278,14 @@ static void run_search(int ndom, int via_conf, int ndots, int name_i, int varian
 	if (!h) { mc_fail("C36/valid-name-rejected", "%s: search request refused", g_ctx); free_resolver(); return; }
 	/* expected order (header of event2/dns.h: as many dots as ndots -> the name itself first, else last) */
 	char exp[12][300]; int nexp = 0, dots = 0; for (const char *p = name; *p; p++) dots += *p == '.';
+	/* the wire has no notion of a trailing dot: expected texts are built from the name without it (dots still counts it, as evdns does) */
+	char base[64]; snprintf(base, sizeof base, "%s", name); { size_t bl = strlen(base); if (bl && base[bl - 1] == '.') base[bl - 1] = 0; }
 	int searching = variant != 1 && ndom > 0;
-	if (!searching) snprintf(exp[nexp++], 300, "%s", name);
+	if (!searching) snprintf(exp[nexp++], 300, "%s", base);
 	else {
-		if (dots >= ndots) snprintf(exp[nexp++], 300, "%s", name);
-		for (int i = 0; i < ndom; i++) { const char *d = dl[i]; while (*d == '.') d++; snprintf(exp[nexp++], 300, "%s.%s", name, d); }
-		if (dots < ndots) snprintf(exp[nexp++], 300, "%s", name);
+		if (dots >= ndots) snprintf(exp[nexp++], 300, "%s", base);
+		for (int i = 0; i < ndom; i++) { const char *d = dl[i]; while (*d == '.') d++; snprintf(exp[nexp++], 300, "%s.%s", base, d); }
+		if (dots < ndots) snprintf(exp[nexp++], 300, "%s", base);
 	}
 	for (int step = 0; step < 10; step++) {
 		size_t l = capture(tcp, q, sizeof q);
@@ -311,9 +314,9 @@ static void run_search(int ndom, int via_conf, int ndots, int name_i, int varian
 	if (!ok && !via_conf && searching && ndom > 1) {
 		/* evdns_base_search_add documents no order between the domains: accept the reverse list too */
 		char rexp[12][300]; int k = 0;
-		if (dots >= ndots) snprintf(rexp[k++], 300, "%s", name);
-		for (int i = ndom - 1; i >= 0; i--) { const char *d = dl[i]; while (*d == '.') d++; snprintf(rexp[k++], 300, "%s.%s", name, d); }
-		if (dots < ndots) snprintf(rexp[k++], 300, "%s", name);
+		if (dots >= ndots) snprintf(rexp[k++], 300, "%s", base);
+		for (int i = ndom - 1; i >= 0; i--) { const char *d = dl[i]; while (*d == '.') d++; snprintf(rexp[k++], 300, "%s.%s", base, d); }
+		if (dots < ndots) snprintf(rexp[k++], 300, "%s", base);
 		ok = nseq == stop_after;
 		for (int i = 0; ok && i < nseq; i++) if (evutil_ascii_strcasecmp(seq[i], rexp[i])) ok = 0;
 		if (ok) MC_COUNT("search_api_order_reversed");
@@ -339,7 +342,8 @@ static void generate(const char *tier)
 	for (int i = 0; i < 12; i++) for (int rc = 0; rc < 3; rc++) for (int ed = 0; ed < 2; ed++) add_item(F_REVERSE, 0, i, rc, ed, 0, 0);
 	if (thorough) for (int a = 0; a < 256; a++) for (int pos = 0; pos < 4; pos++) add_item(F_REVERSE, 0, 100 + pos, a, 0, 0, 0);   /* every octet value at every position */
 	for (size_t i = 0; i < sizeof edns_vals / sizeof edns_vals[0]; i++) for (int qt = 0; qt < 2; qt++) { add_item(F_EDNS, 0, (int)i, qt, 0, 0, 0); add_item(F_EDNS, 1, (int)i, qt, 0, 0, 0); }
-	for (int ndom = 0; ndom <= (thorough ? 5 : 3); ndom++) for (int conf = 0; conf < 2; conf++) for (int nd = 0; nd <= (thorough ? 5 : 3); nd++) for (int ni = 0; ni < (thorough ? 8 : 4); ni++) for (int v = 0; v < 4; v++) {
+	for (int ndom = 0; ndom <= (thorough ? 5 : 3); ndom++) for (int conf = 0; conf < 2; conf++) for (int nd = 0; nd <= (thorough ? 5 : 3); nd++) for (int nj = 0; nj < (thorough ? 10 : 6); nj++) for (int v = 0; v < 4; v++) {
+		int ni = (!thorough && nj >= 4) ? nj + 4 : nj;   /* quick: the first four names and the two trailing-dot names */
 		if (conf && ndom == 0) continue;
 		add_item(F_SEARCH, 0, ndom, conf, nd, ni, v);
 		if (thorough || (nd == 1 && v == 0)) add_item(F_SEARCH, 1, ndom, conf, nd, ni, v);
